@@ -281,7 +281,7 @@ theorem pending_step (s : Seg.State) (op : Seg.Op) : s.pending ⊆ (Seg.step s o
 theorem segOp_safe {b : Bool} {st : St} (h : Good b st) (op : Seg.Op) (wf : Seg.Op.wf st.seg op)
     (hop : ∀ a d, op ≠ .rewrite a d) :
     segStep st.seg op ≠ .stop .panic ∧ ∀ s' o, segStep st.seg op = .ok (s', o) →
-      Good b { st with seg := s' } ∧ Ext st { st with seg := s' } := by
+      Good b { st with seg := s' } ∧ st.seg.pending ⊆ s'.pending ∧ Path st.seg [(op, o)] s' := by
   have hs := segStep_nonrewrite h.inv op wf hop
   refine ⟨hs.1, fun s' o e => ?_⟩
   obtain ⟨he, hi⟩ := hs.2 _ _ e
@@ -289,7 +289,11 @@ theorem segOp_safe {b : Bool} {st : St} (h : Good b st) (op : Seg.Op) (wf : Seg.
     have := pending_step st.seg op
     rw [← he] at this
     exact this
-  exact good_setSeg h hi hp
+  have hnp : o ≠ .panic := by
+    have := (Seg.step_nonrewrite h.inv op wf hop).1
+    rw [← he] at this
+    exact this
+  exact ⟨good_setSeg h hi hp, hp, .cons h.inv wf he.symm hnp (.nil _)⟩
 
 theorem evalStrict_ok {b : Bool} {env : Env} {st : St} (h : Good b st) (hb : env.paths.isEmpty = !b)
     (dir : String) (line col : Nat) (a : Arg) :
@@ -313,11 +317,21 @@ theorem seg_result_safe {b : Bool} {st : St} (h : Good b st) (env : Env) (line c
   have so := segOp_safe h op wf hop
   split
   · rename_i s' e hs
-    obtain ⟨g, e1⟩ := so.2 _ _ hs
-    exact ⟨by simp, fun st' x eq => by cases eq; exact ⟨good_push g .., e1.trans (ext_push ..)⟩⟩
-  · rename_i s' o _ hs
-    obtain ⟨g, e1⟩ := so.2 _ _ hs
-    exact ⟨by simp, fun st' x eq => by cases eq; exact ⟨g, e1⟩⟩
+    obtain ⟨g, hp, hpath⟩ := so.2 _ _ hs
+    exact ⟨by simp, fun st' x eq => by
+      cases eq
+      exact ⟨good_push g .., ext_of_path (st'' := St.push { st with seg := _ } _ _ _ _) hp rfl hpath
+        (by simp [diags, isDiag, St.push, St.pushIn])⟩⟩
+  · rename_i s' o hne hs
+    obtain ⟨g, hp, hpath⟩ := so.2 _ _ hs
+    exact ⟨by simp, fun st' x eq => by
+      cases eq
+      refine ⟨g, ext_of_path (st'' := { st with seg := _ }) hp rfl hpath ?_⟩
+      have : isDiag o = false := by
+        cases o with
+        | diag e => exact absurd rfl (hne e)
+        | _ => rfl
+      simp [diags, this]⟩
   · rename_i r hs
     exact ⟨fun e => by cases e; exact so.1 hs, fun st' x eq => by cases eq⟩
 
